@@ -4,8 +4,8 @@
   (with the three in-body regex scanners transcribed) and of `mitmproxy.http.Message.set_text / get_text`.
   Python `str`s (content type, codec names) are lists of code points; bodies are byte lists; the text itself is an
   abstract type `τ` that only the codecs look into.  The codecs (`encoding.encode/decode`, utf-8/surrogateescape) are
-  parameters (`Lib`).  `str.isspace()` comes from the generated table `Gen.C32.pySpace`; `str.lower()` is modelled as
-  ASCII lower-casing.
+  parameters (`Lib`).  `str.isspace()` comes from the generated table `Gen.C32.pySpace`; `str.lower()` is the generated per-character
+  table `Gen.C32.pyLower` (exact for strings without GREEK CAPITAL SIGMA).
 -/
 import MitmVerif.Basic.Bytes
 import MitmVerif.Gen.C32
@@ -20,8 +20,14 @@ def lstrip (s : Str) : Str := s.dropWhile isSpace
 def rstrip (s : Str) : Str := (s.reverse.dropWhile isSpace).reverse
 def strip (s : Str) : Str := rstrip (lstrip s)
 
-def lowerC (c : Nat) : Nat := if 65 ≤ c ∧ c ≤ 90 then c + 32 else c
-def lower (s : Str) : Str := s.map lowerC
+/-- `chr(c).lower()`: ASCII directly, everything else from the generated table -/
+def lowerC (c : Nat) : List Nat :=
+  if c < 128 then [if 65 ≤ c ∧ c ≤ 90 then c + 32 else c]
+  else match Gen.C32.pyLower.find? (fun e => e.1 == c) with
+    | some e => e.2
+    | none => [c]
+/-- `str.lower()` (character by character; exact for strings without U+03A3, whose final-sigma rule depends on the context) -/
+def lower (s : Str) : Str := s.flatMap lowerC
 
 /-- `s.split(c, 1)`: the part before the first `c`, and the part after it if there is one -/
 def split1 (c : Nat) : Str → Str × Option Str
